@@ -60,6 +60,7 @@ type Config struct {
 	WALTruncate                                                             bool // truncate the WAL tail on restart
 	ArmedCrashes                                                            bool // crash before the k-th durable write instead of "now"
 	Partition                                                               bool
+	DelayPct, DelayMax                                                      int    // slow links: share of (artefact, receiver) pairs held back, and for at most how many steps
 	Attack                                                                  string // "split": a coordinated equivocation attack (see attack.go)
 	Sides                                                                   []int  // split attack: side (0/1) of every validator id
 	ValChanges                                                              bool
@@ -251,6 +252,7 @@ func NewWorld(t *testing.T, cfg Config) *World {
 	w.baseDir = dir
 	w.start = time.Now()
 	w.pool = newPool()
+	w.pool.now = func() int { return w.Step }
 	w.ledger = newSigLedger()
 
 	// validators: keys derived from the seed, ids = order by address
